@@ -1209,7 +1209,7 @@ def grounds():
     from contracts.common import ground_script
     from pyvc.pack import Ground
 
-    return [Ground(f"{PROP}/sevm.SEVM.run#JUMP-symbolic#bool-destination", ground_script("symbolic_jump_bool_destination.py", "--symbolic-jump with a comparison result (symbolic Bool) as the destination", "a symbolic jump whose destination is a Bool-typed word ends every path with a verdict (an invalid destination is an EVM failure, not an internal exception that aborts the exploration)"), sources=("halmos.sevm:SEVM.run",))]
+    return [Ground(f"{PROP}/sevm.SEVM.call#symbolic-target-precompile", ground_script("symbolic_target_precompile.py", "CALL(a, ...) with a symbolic a; RETURNDATASIZE", "a symbolic call target that can equal a precompile (or cheatcode) address is not treated as an account without code unless that is proved impossible"), sources=("halmos.sevm:SEVM.resolve_address_alias", "halmos.sevm:SEVM.call")), Ground(f"{PROP}/sevm.SEVM.run#JUMP-symbolic#bool-destination", ground_script("symbolic_jump_bool_destination.py", "--symbolic-jump with a comparison result (symbolic Bool) as the destination", "a symbolic jump whose destination is a Bool-typed word ends every path with a verdict (an invalid destination is an EVM failure, not an internal exception that aborts the exploration)"), sources=("halmos.sevm:SEVM.run",))]
 
 
 def build_cases(tier="quick"):
